@@ -45,7 +45,10 @@ def get_inherited(t: Type) -> Type:
 
     g_args = get_args(t)
     if len(g_args) > 0:
-        mapping = {a.__name__: v for a, v in zip(r.__parameters__, g_args)}
+        # The arguments belong to the parameters of `t`'s own class, in their order - the base
+        # may mention them in another order.
+        t_params = getattr(get_origin(t), "__parameters__", None) or r.__parameters__
+        mapping = {a.__name__: v for a, v in zip(t_params, g_args)}
 
         r_base = get_origin(r)
         assert r_base is not None, "Internal error"
